@@ -63,7 +63,7 @@ class C03(Prop):
     def generate(self, rng, tier, n):
         for _ in range(n):
             al = self._rand_caps(rng)
-            lines = [f"cfg {caps_str(al)}"]
+            lines = [f"cfg {caps_str(al)} {rng.choice(['set', 'set', 'frozenset', 'list', 'tuple'])}"]
             body = 0
             for _ in range(rng.randint(2, 12)):
                 r = rng.random()
@@ -72,7 +72,7 @@ class C03(Prop):
                     body += 1
                     req = self._rand_caps(rng)
                     cp = self._rand_caps(rng) if rng.random() < 0.4 else None
-                    style = rng.choice("aabbc")
+                    style = rng.choice("aabbcdeg")
                     if style == "c":
                         cp = None            # SimpleTool / register_function only has required_capabilities
                     lines.append(f"reg {name} {body} {caps_str(req)} {caps_str(cp)} {1 if rng.random() < 0.2 else 0} {style}")
@@ -141,7 +141,17 @@ class C03(Prop):
                     hist.append({"lines": [f"cfg {caps_str(al)}", f"reg w 1 {caps_str(al[:1])} none 0", e1, "unreg w", e2,
                                            "reg w 2 2 none 0", e2, "unreg w", "reg w 3 - none 0", e2],
                                  "note": "exhaustive use / remove / re-register history"})
-        return [{"name": "re-registration histories: allowed/used/re-registered outside the ceiling x entry-point pairs",
+        cont = []
+        for cst in ("set", "frozenset", "list", "tuple"):
+            for al in ([], [0], [0, 1]):
+                for tstyle in "adeg":
+                    for req in ([2], [0, 2], [0]):
+                        for e in entries:
+                            cont.append({"lines": [f"cfg {caps_str(al)} {cst}", f"reg w 1 {caps_str(req)} none 0 {tstyle}", e],
+                                         "note": "exhaustive container types of ceiling and declaration x entry"})
+        return [{"name": "container types (set/frozenset/list/tuple) of the ceiling and of the tool's declaration x entry points",
+                 "cases": cont},
+                {"name": "re-registration histories: allowed/used/re-registered outside the ceiling x entry-point pairs",
                  "cases": hist},
                 {"name": "tool-object styles (with/without parameters_schema, SimpleTool) x schema export x entry points incl. duplicate call ids",
                  "cases": styl},
@@ -177,10 +187,11 @@ class C03(Prop):
         else:
             t = T()
         t.name = name
+        conv = {"d": list, "e": tuple, "g": frozenset}.get(style, set)
         if req is not None:
-            t.required_capabilities = {C[i] for i in req}
+            t.required_capabilities = conv(C[i] for i in req)
         if caps is not None:
-            t.capabilities = {C[i] for i in caps}
+            t.capabilities = conv(C[i] for i in caps)
         return t
 
     def run_impl(self, case):
@@ -194,10 +205,12 @@ class C03(Prop):
         raising = {}       # body id -> raises
         info = []          # per line: bodies executed during that line
 
-        def new(al):
+        def new(al, style="set"):
             nonlocal mito, allowed
             allowed = al
-            mito = mm.Mitochondria(allowed_capabilities=None if al is None else {self.caps[i] for i in al},
+            # the ceiling may be handed over as any collection; the decision must not depend on its container type
+            conv = {"set": set, "frozenset": frozenset, "list": list, "tuple": tuple}.get(style, set)
+            mito = mm.Mitochondria(allowed_capabilities=None if al is None else conv(self.caps[i] for i in al),
                                    silent=True, max_ros=1e9)
             counter.clear()
             decl.clear()
@@ -211,7 +224,7 @@ class C03(Prop):
             t = line.split()
             n0 = len(counter)
             if t[0] == "cfg":
-                new(parse_caps(t[1]))
+                new(parse_caps(t[1]), t[2] if len(t) > 2 else "set")
                 obs.append("ok")
             elif mito is None:
                 new(None)
